@@ -95,7 +95,7 @@ func genProxyRaw(hostile bool) func(g *rand.Rand, tier string) any {
 				}
 			}
 			p.Peers = append(p.Peers, bad)
-			p.Reattach = g.IntN(4) // 3: concurrently with the handling of the old connection's failure
+			p.Reattach = g.IntN(5) // 3: concurrently with the handling of the old connection's failure; 4: by the disconnect callback itself (reconnect on disconnect)
 			if bad.Dial {
 				p.Reattach = 0
 			}
@@ -104,6 +104,9 @@ func genProxyRaw(hostile bool) func(g *rand.Rand, tier string) any {
 			}
 			if g.IntN(6) == 0 {
 				p.NoCallback = true
+				if p.Reattach == 4 {
+					p.Reattach = 3
+				}
 			}
 			if g.IntN(3) == 0 {
 				p.CancelAt = 1 + g.IntN(120)
@@ -290,11 +293,22 @@ func execProxyRaw(e *Env, pp any) {
 	var releaseFn func(n string, r *Rpc)
 	maybeSent := map[string]int{}
 	attachedEv := map[string]int{} // late peers: event count when AddClient had returned
+	reattachedInCb := false
+	var reattachFromCallback func()
 	onDisc := func(id string, reason error) {
 		histMu.Lock()
 		disconnects = append(disconnects, id)
+		first := id == "bad" && !reattachedInCb
+		if first {
+			reattachedInCb = true
+		}
 		histMu.Unlock()
 		e.Pt("disconnect.cb") // the callback takes a while: other tasks may run meanwhile
+		if first && p.Reattach == 4 && reattachFromCallback != nil {
+			// reconnect on disconnect: the application attaches the peer's new connection
+			// before its callback returns
+			reattachFromCallback()
+		}
 	}
 	if p.NoCallback {
 		onDisc = nil
@@ -493,6 +507,7 @@ func execProxyRaw(e *Env, pp any) {
 		})
 		e.Note("fault.peer.reattach")
 	}
+	reattachFromCallback = reattach
 	faultDone := false
 	for si := range p.Peers {
 		idxs := bySender[si]
@@ -963,7 +978,7 @@ func execProxyRaw(e *Env, pp any) {
 			if p.Reattach != 0 && gotDisc {
 				cur := goat.VerifProxyConn(px, "bad")
 				if cur == nil {
-					e.Violate(prop, "reattached-connection-removed", "proxy.go:serveClients", "the failure of bad's old connection removed the newer connection attached under the same name (re-attached %s the failure)", []string{"", "before", "after", "concurrently with the handling of"}[p.Reattach%4])
+					e.Violate(prop, "reattached-connection-removed", "proxy.go:serveClients", "the failure of bad's old connection removed the newer connection attached under the same name (re-attached %s the failure)", []string{"", "before", "after", "concurrently with the handling of", "from the disconnect callback of"}[p.Reattach%5])
 				} else if cur != goat.RpcReadWriter(bad.pxEnd) {
 					e.Violate(prop, "reattached-connection-replaced", "proxy.go:serveClients", "the proxy holds a connection for bad that is not the newest one")
 				} else {
